@@ -176,41 +176,71 @@ def _regex_chars(model, fi, call):
     return None
 
 
-def _walk_disjunctive(expr):
-    """Sub-expressions whose truth implies the truth of a disjunction
-    `expr` is built from: a conjunction `a and b` is not descended into (the
-    test `'&' in t and other(t)` does not fire for every string with '&')."""
-    todo = [expr]
-    while todo:
-        e = todo.pop()
-        if isinstance(e, ast.BoolOp) and isinstance(e.op, ast.And) and \
-                sum(1 for v in e.values
-                    if not isinstance(v, ast.Constant)) > 1:
-            continue
-        yield e
-        todo.extend(ast.iter_child_nodes(e))
-
-
-def _chars_in(model, fi, expr):
-    chars = set()
-    for p in _walk_disjunctive(expr):
+def _char_atoms(model, fi, expr):
+    """node -> set of characters whose presence makes the node true, for
+    the atomic predicates inside expr: `'c' in t`, any(c in t for c in
+    CHARS), a one-class regex search."""
+    atoms = {}
+    for p in ast.walk(expr):
         if isinstance(p, ast.Compare) and len(p.ops) == 1 and \
                 isinstance(p.ops[0], ast.In) and \
                 isinstance(p.left, ast.Constant) and \
                 isinstance(p.left.value, str) and len(p.left.value) == 1:
-            chars.add(p.left.value)
+            atoms[id(p)] = {p.left.value}
         elif isinstance(p, ast.Call) and isinstance(p.func, ast.Name) and \
                 p.func.id == 'any' and p.args and \
                 isinstance(p.args[0], ast.GeneratorExp):
             g = p.args[0].generators[0]
             ok, v = model.fold(g.iter, fi)
             if ok and isinstance(v, (str, tuple, list)):
-                chars |= set(v)
+                atoms[id(p)] = set(v)
         elif isinstance(p, ast.Call):
             rc = _regex_chars(model, fi, p)
             if rc:
-                chars |= rc
-    return chars
+                atoms[id(p)] = set(rc)
+    return atoms
+
+
+def _eval3(e, atoms, c):
+    """Three-valued value of e when character c is known to occur in the
+    text and nothing else is known."""
+    if id(e) in atoms:
+        return True if c in atoms[id(e)] else None
+    if isinstance(e, ast.UnaryOp) and isinstance(e.op, ast.Not):
+        v = _eval3(e.operand, atoms, c)
+        return None if v is None else not v
+    if isinstance(e, ast.BoolOp):
+        vs = [_eval3(v, atoms, c) for v in e.values]
+        if isinstance(e.op, ast.Or):
+            if any(v is True for v in vs):
+                return True
+            return False if all(v is False for v in vs) else None
+        if any(v is False for v in vs):
+            return False
+        return True if all(v is True for v in vs) else None
+    if isinstance(e, ast.Compare) and len(e.ops) == 1 and isinstance(
+            e.ops[0], (ast.Is, ast.IsNot)) and isinstance(
+            e.comparators[0], ast.Constant) and \
+            e.comparators[0].value is None:
+        # predicate(t) is None / is not None
+        v = _eval3(e.left, atoms, c)
+        if v is None:
+            return None
+        return (not v) if isinstance(e.ops[0], ast.Is) else v
+    if isinstance(e, ast.Constant):
+        return bool(e.value)
+    return None
+
+
+def _chars_in(model, fi, expr):
+    """Characters whose presence in the text decides the predicate on its
+    own (whatever the other atoms say): `'&' in t and other(t)` does not
+    count for '&', `isinstance(t, str) and not ('&' in t or ...)` does."""
+    atoms = _char_atoms(model, fi, expr)
+    cand = set()
+    for v in atoms.values():
+        cand |= v
+    return {c for c in cand if _eval3(expr, atoms, c) is not None}
 
 
 def fast_path_chars(model):
